@@ -54,6 +54,9 @@ func c05Cells(tier string) []Cell {
 					for _, init := range []string{"A", "S"} {
 						for first := 0; first < len(c05Alphabet(ft)); first++ {
 							c := FCfg{Front: front, SU: su, MS: true, Init: init, FailC: "0", Rand: rnd, Tags: []string{"window", fmt.Sprint(maxLen), fmt.Sprint(first)}}
+							if init == "S" && rnd == 1+0.5 {
+								c.UpdSec = 2 // UpdateTTL shorter than FailedUpdateTTL: the refreshed stale copy expires inside the window
+							}
 
 							if ft < 0 {
 								c.FTNeg = true
@@ -84,7 +87,7 @@ func c05FT(cfg FCfg) time.Duration {
 }
 
 func c05Alphabet(ft int) []string {
-	return []string{"Get(ok)", "Get(fail)", "Advance(1s)", "Advance(FT*0.95-16ns)", "Advance(FT*1.05+1ns)"}
+	return []string{"Get(ok)", "Get(fail)", "Advance(1s)", "Advance(FT*0.95-16ns)", "Advance(FT*1.05+1ns)", "ExpireAll(backend)"}
 }
 
 func c05Burst(cfg FCfg, env *Env) CellResult {
@@ -206,6 +209,8 @@ func c05Window(cfg FCfg, env *Env) CellResult {
 					if ft > 0 {
 						vclock.Advance(time.Duration(float64(ft)*1.05) + time.Nanosecond)
 					}
+				case 5:
+					h.front.ExpireAll()
 				}
 
 				vclock.Advance(time.Nanosecond)
@@ -228,23 +233,26 @@ func c05Window(cfg FCfg, env *Env) CellResult {
 			lastFailErr string
 		)
 
+		// noValue: nothing has ever been stored for the key, so neither a stale nor a refreshed copy can be served
+		noValue := cfg.Init[0] == 'A'
+
 		for _, e := range evs {
 			if hasFail && ft > 0 && e.built && e.at.Sub(lastFail) < lower {
 				viol = append(viol, Violation{Signature: fmt.Sprintf("C05 %s early-rebuild-after-failure", front),
 					Detail: fmt.Sprintf("builder invoked %v after a failure, FailedUpdateTTL=%v allows it only after %v", e.at.Sub(lastFail), ft, lower)})
 			}
 
-			if hasFail && ft > 0 && !e.built && e.at.Sub(lastFail) < lower && cfg.Init[0] == 'A' && strings.HasPrefix(e.res, "E:") && e.res != lastFailErr {
+			if hasFail && ft > 0 && !e.built && e.at.Sub(lastFail) < lower && noValue && strings.HasPrefix(e.res, "E:") && e.res != lastFailErr {
 				viol = append(viol, Violation{Signature: fmt.Sprintf("C05 %s different-error-in-window", front),
 					Detail: fmt.Sprintf("Get inside the suppression window returned %s, the cached failure is %s", e.res, lastFailErr)})
 			}
 
-			if hasFail && ft > 0 && e.at.Sub(lastFail) < lower && cfg.Init[0] == 'A' && !strings.HasPrefix(e.res, "E:") {
+			if hasFail && ft > 0 && e.at.Sub(lastFail) < lower && noValue && !strings.HasPrefix(e.res, "E:") {
 				viol = append(viol, Violation{Signature: fmt.Sprintf("C05 %s value-in-window", front),
 					Detail: fmt.Sprintf("Get inside the suppression window returned %s although nothing is cached for the key but the failure", e.res)})
 			}
 
-			if ft < 0 && cfg.Init[0] == 'A' && hasFail && !e.built {
+			if ft < 0 && noValue && hasFail && !e.built {
 				// FailedUpdateTTL=-1: the next Get that finds no fresh value must build again.
 				viol = append(viol, Violation{Signature: fmt.Sprintf("C05 %s no-rebuild-with-failure-cache-disabled", front),
 					Detail: "FailedUpdateTTL=-1 but a Get that found no fresh value did not invoke the builder after a failure"})
@@ -254,6 +262,7 @@ func c05Window(cfg FCfg, env *Env) CellResult {
 				lastFail, hasFail, lastFailErr = e.at, true, e.res
 			} else if e.built {
 				hasFail = false
+				noValue = false
 			}
 		}
 
